@@ -1072,7 +1072,7 @@ var checkConfigs = map[string]checkCfg{
 	},
 	"C17": {
 		prop: "C17", engine: "copysim", level: "exploration", checksPerBatch: 10, minBatches: 16,
-		rule: "cases = histories of up to 10 operations {run program (heap builders x observers x mutators), Copy(node), generic mutation of the n-th reachable object, program aborted at step k, simultaneous programs on several nodes under the step scheduler} over a tree of up to 6 runtimes; after every operation every node's full heap dump (all objects reachable from the global object and intrinsics: class, extensibility, prototype link, property order, full descriptors, function source, primitive/date values; identity by discovery order) must equal the dump of its replay twin (a fresh runtime on which the node's lineage was re-executed), and every program must return the same result and host-call trace on node and twin; evaluations counts histories. distinct_nontrivial = distinct operation-kind sequences of histories that contain at least one Copy followed by a mutation or observation.",
+		rule: "cases = histories of up to 10 operations {run program (heap builders x observers x mutators), Copy(node), Copy(node) taken mid-run from inside an interrupt function (its twin is halted by a panicking interrupt at the same poll), generic mutation of the n-th reachable object, program aborted at step k, simultaneous programs on several nodes under the step scheduler} over a tree of up to 6 runtimes, plus once per run: a mid-run Copy at every poll (quick: every third) of two programs that pass through eval / Function / with / catch / getter / native-callback contexts, and every heap builder copied and then written through by the type-directed mutator on copy and original; after every operation every node's full heap dump (all objects reachable from the global object and intrinsics: class, extensibility, prototype link, property order, full descriptors, function source, primitive/date values; identity by discovery order) must equal the dump of its replay twin (a fresh runtime on which the node's lineage was re-executed), and every program must return the same result and host-call trace on node and twin; evaluations counts histories. distinct_nontrivial = distinct operation-kind sequences of histories that contain at least one Copy followed by a mutation or observation.",
 		assumptions: []string{
 			"the dumper observes only what scripts can observe; closures' captured variables are observed through registered peek functions, not structurally",
 			"Copy() is taken between top-level API calls (source at rest), including right after aborted programs; Copy() from inside a host function is not simulated",
@@ -1083,7 +1083,7 @@ var checkConfigs = map[string]checkCfg{
 	},
 	"C20": {
 		prop: "C20", engine: "multisim", level: "exploration", checksPerBatch: 40, minBatches: 16,
-		rule: "cases = (template program, 1-3 shared Scripts/Programs, 2-5 tasks of mixed provenance {fresh, copy, copy of copy, live copy} each with 1-3 programs submitted by route {text, reader, shared Script, shared ast.Program, self-compiled}), run once interleaved at evaluation-step granularity under a seeded scheduler (uniform / burst / PCT priorities / serial) on real goroutines with the race detector armed, then each task alone; evaluations counts runs (1 interleaved + N solo per case). distinct_nontrivial = number of distinct schedule hashes (sequence of context switches) among interleaved runs with at least 2 switches while at least 2 runtimes were mid-program.",
+		rule: "cases = (template program, 1-3 shared Scripts/Programs, 2-5 tasks of mixed provenance {fresh, copy, copy of copy, live copy} each with 1-3 programs submitted by route {text, reader, shared Script, shared ast.Program, self-compiled}), run once interleaved at evaluation-step granularity under a seeded scheduler (uniform / burst / PCT priorities / serial) on real goroutines - three build flavours by batch: race detector with a sync.Pool that never reuses (3 of 6), plain build with the real Pool (2 of 6), race detector with a Pool that keeps everything that is Put and one P (1 of 6) - then each task alone; evaluations counts runs (1 interleaved + N solo per case). distinct_nontrivial = number of distinct schedule hashes (sequence of context switches) among interleaved runs with at least 2 switches while at least 2 runtimes were mid-program.",
 		assumptions: []string{
 			"the step handoff is invisible to the race detector (plain words in //go:norace functions): amd64 TSO and the Go compiler not moving memory operations across an opaque call are trusted",
 			"context switches happen only at evaluation steps; Go-only built-ins and Copy() are atomic in simulated time (the race detector still sees conflicting accesses across them)",
@@ -1094,7 +1094,7 @@ var checkConfigs = map[string]checkCfg{
 	},
 	"C18": {
 		prop: "C18", engine: "stepsim", level: "fault_enumeration", checksPerBatch: 6, minBatches: 16,
-		rule: "cases = generated programs x (stack limit, channel capacity, host-function fault schedule); each case is run fault-free (with and without a channel) and then, in exhaustive mode, once per (step k in [0,n0]) x {noop, panic(error), panic(string)} interrupt, or in seeded mode under a drawn schedule of up to 4 interrupts/watchdogs of 8 kinds (among them one that tightens the stack limit), plus a host-function panic at every host call of small programs; the first batch also enumerates the (23 recursion forms x limits 2..14) grid and the (forms x depth at which a host function tightens the limit x limit) grid; after every exit: a try/catch script, an endless loop under a fresh watchdog, the continuation program, store read-back and the depth probe; evaluations counts simulated runs. distinct_nontrivial = number of distinct unwinding signatures (collapsed interpreter Go call stack at the moment the interrupt function was invoked x interrupt kind), counted only for interrupts actually delivered while the script was running.",
+		rule: "cases = generated programs x (stack limit, channel capacity, host-function fault schedule); each case is run fault-free (with and without a channel) and then, in exhaustive mode, once per (step k in [0,n0]) x {noop, panic(error), panic(string)} interrupt, or in seeded mode under a drawn schedule of up to 4 interrupts/watchdogs of 8 kinds (among them one that tightens the stack limit), plus a host-function panic at every host call of small programs; functions queued on the channel before the script starts are part of the schedules; the first batches also enumerate the (23 recursion forms x limits 2..14) grid, the (forms x depth at which a host function tightens the limit x limit) grid, the copy grid and every never-ending construct x entry route x channel kind under a panicking watchdog; after every exit: a try/catch script, the catch-parameter probe, an endless loop under a fresh watchdog, a `debugger;` script when a handler is installed, the continuation program, store read-back (journal, conserved sort stores) and the depth probes; evaluations counts simulated runs. distinct_nontrivial = number of distinct unwinding signatures (collapsed interpreter Go call stack at the moment the interrupt function was invoked x interrupt kind), counted only for interrupts actually delivered while the script was running.",
 		assumptions: []string{
 			"interrupts can only be observed at evaluation steps (hook granularity); built-ins written in Go are atomic between their callbacks, which is also the only place otto polls",
 			"the hook sends on the real channel from the interpreter goroutine; the channel, the poll, panic propagation and unwinding are unmodified otto code",
